@@ -93,6 +93,9 @@ func (n *Node) src(sb *strings.Builder) {
 			f.Node.src(sb)
 		}
 		sb.WriteString("})")
+		if n.ViaMerge {
+			sb.WriteString("/*assembled as part1.Merge(part2, part3)*/")
+		}
 	case Slice:
 		sb.WriteString("z.Slice(")
 		n.Elem.src(sb)
